@@ -325,7 +325,7 @@ PROPS = {
         "claim": "Code/arm mapping only: quinn reset/stop codes are converted to the application's Reset(c)/Stopped(c) unchanged for all 2^62 codes, other quinn error variants never become Reset/Stopped, and the varint conversions at the driver boundary are the identity. Stream wrappers (Verus unit driver_io): the stopped-notification reports STOP_SENDING(c) as Stopped(c) with the same code, a finished-and-acknowledged stream as Closed; QuicSendStream::finish succeeds IFF quinn reports the stream finished with everything acknowledged and otherwise fails with the mapped cause (Stopped(c), NotConnected, ...); reset(c) / stop(c) hand exactly c to quinn.",
         "note": "Everything else on this path is quinn (delivery of the signal, finish-acknowledged semantics). Variants carrying a quinn::ConnectionError (ConnectionLost) are not constructed (bytes::Bytes is out of CBMC's reach).",
         "kani": DRIVER_KANI,
-        "verus": [V("driver_io")],
+        "verus": [V("driver_io"), V("driver_poll")],
         "not_decided": ["finish/stopped futures over quinn", "signal delivery"],
     },
     "C09": {
@@ -394,7 +394,7 @@ PROPS = {
         "note": "The content of the local SETTINGS (WebTransport, H3 datagrams, extended CONNECT, zero-capacity QPACK table) and Encoder::encode's line-per-field grammar are Verus units. Not under contract (HashMap iteration / sort closure / driver): the order in which Settings::generate_frame emits the pairs, sorted_headers ordering (pseudo-headers first), 'exactly one control stream, SETTINGS first' (worker).",
         "kani": [FRAME_KIND_KANI[3], STREAM_KIND_KANI[3], SETTING_ID_KANI[3]] + MISC_KANI + [QPACK_MISC[1]] + QPACK_INT_ENC[:2]
                 + [STREAM_KANI_QUICK[5], STREAM_HEADER_KANI[1], FRAME_WRITE_KANI[0], DATAGRAM_KANI[2], CAPSULE_KANI[0]] + ASYNC_LEAF_KANI[3:5] + ASYNC_WRITE_KANI + [QPACK_LOOKUP_QUICK],
-        "verus": [V("qpack_encode"), V("frame_write", pair=("proto", "p_frame_write_roundtrip_8")), V("settings"), V("datagram"), V("driver")],
+        "verus": [V("qpack_encode"), V("frame_write", pair=("proto", "p_frame_write_roundtrip_8")), V("settings"), V("datagram"), V("driver"), V("driver_poll")],
         "not_decided": ["LocalSettingsStream content", "pseudo-header ordering", "Encoder::encode as a whole", "worker emission order"],
     },
     "C17": {
